@@ -47,6 +47,7 @@ inductive Role where
 inductive Msg where
   | please
   | hints (fresh : Bool)     -- `fresh`: names the listener of the sender's CURRENT connector
+  | rhints (fresh : Bool)    -- the relay hint of a side configured with `transit_relay_location`; `fresh`: sent by its CURRENT connector
   | reconnect
   | reconnecting
   deriving DecidableEq, Repr, Inhabited, Hashable
@@ -54,6 +55,19 @@ inductive Msg where
 inductive Status where
   | open_ | closing | lost
   deriving DecidableEq, Repr, Inhabited, Hashable
+
+/-- a scheduled outbound connection (`Connector._schedule_connection`): to a listener of the peer
+    (`fresh`: of its CURRENT connector) or to the transit relay -/
+inductive Att where
+  | direct (fresh : Bool)
+  | relay
+  deriving DecidableEq, Repr, Inhabited, Hashable
+
+instance : Coe Bool Att := ⟨.direct⟩
+
+def Att.stale : Att → Att
+  | .direct _ => .direct false
+  | .relay => .relay
 
 inductive EqCall where
   | accept (l : Nat)         -- `eventually(self.accept, c)` from `Connector.consider`
@@ -109,6 +123,7 @@ structure Link where
   qb : List Rec := []
   sa : Bool := false        -- silent loss: what A writes is no longer delivered (neither end is told)
   sb : Bool := false
+  relay : Bool := false     -- made by the transit relay: BOTH ends dialled (both are in their Connector's _pending_connections)
   deriving DecidableEq, Repr, Inhabited, Hashable
 
 def Link.q (k : Link) : SideId → List Rec
@@ -143,7 +158,8 @@ structure Side where
   con : Option Connector.State := none     -- state of Manager._connector
   lst : Bool := false       -- the current connector's listener is open
   stale : Bool := false     -- a listener of an old connector is still open
-  att : List Bool := []     -- scheduled outbound connections; true: to the peer's current listener
+  att : List Att := []      -- scheduled outbound connections, oldest first
+  rhalf : Option End := none  -- this side's connection to the relay, waiting there for the peer's (relay handshake sent, no `ok` yet)
   conn : Option Nat := none -- Manager._connection (slot of the link)
   eq : List EqCall := []    -- the control-relevant calls waiting in the EventualQueue
   tt : Option TrafficTimer.State := none
@@ -165,13 +181,17 @@ structure Sys where
       property's proviso needs at least one direction. -/
   ra : Bool := true
   rb : Bool := true
+  /-- the side (at most one) that was given `transit_relay_location`: its Connector publishes the relay hint in
+      every generation and dials the relay itself; the peer dials it only when it is handed that hint.  The
+      relay is reachable by both; it joins the two connections that wait there. -/
+  relay : Option SideId := none
   deriving DecidableEq, Repr, Inhabited
 
 instance : Hashable Ordering where
   hash o := match o with | .lt => 1 | .eq => 2 | .gt => 3
 
 instance : Hashable Sys where
-  hash s := mixHash (hash s.cmp) (mixHash (hash s.a) (mixHash (hash s.b) (mixHash (hash s.ab) (mixHash (hash s.ba) (mixHash (hash s.links) (hash (s.ra, s.rb)))))))
+  hash s := mixHash (hash s.cmp) (mixHash (hash s.a) (mixHash (hash s.b) (mixHash (hash s.ab) (mixHash (hash s.ba) (mixHash (hash s.links) (hash (s.ra, s.rb, s.relay)))))))
 
 def Sys.side (s : Sys) : SideId → Side
   | .A => s.a
@@ -245,10 +265,15 @@ def mapLinks (f : Nat → Link → Link) (ls : List (Option Link)) : List (Optio
 def stopPendingConnections (x : SideId) (except : Option Nat) (s : Sys) : Sys :=
   { s with links := mapLinks (fun i k =>
       let e := k.end_ x
-      if k.dialer = x ∧ e.owner = none ∧ some i ≠ except then k.setEnd x (loseConnection e) else k) s.links }
+      if (k.relay ∨ k.dialer = x) ∧ e.owner = none ∧ some i ≠ except then k.setEnd x (loseConnection e) else k) s.links }.modSide x
+    -- a connection still waiting at the relay is dropped too (it is closed; the relay forgets it)
+    (fun sd => match sd.rhalf with
+      | some e => if e.owner = none then { sd with rhalf := none } else sd
+      | none => sd)
 
 def unstale : Msg → Msg
   | .hints _ => .hints false
+  | .rhints _ => .rhints false
   | m => m
 
 /-- bookkeeping when side `x` replaces its connector: its ends, its hints in flight and the peer's
@@ -262,8 +287,9 @@ def retireConnector (x : SideId) (s : Sys) : Sys :=
       let e := k.end_ x
       if e.owner = none then k.setEnd x { e with owner := some st } else k) s.links }
     let s := s.setChanFrom x ((s.chanFrom x).map unstale)
-    let s := s.modSide x.other (fun p => { p with att := p.att.map (fun _ => false), pend := p.pend.map unstale })
-    s.modSide x (fun sd => { sd with stale := sd.stale || sd.lst, lst := false })
+    let s := s.modSide x.other (fun p => { p with att := p.att.map Att.stale, pend := p.pend.map unstale })
+    s.modSide x (fun sd => { sd with stale := sd.stale || sd.lst, lst := false,
+                                     rhalf := sd.rhalf.map (fun e => if e.owner = none then { e with owner := some st } else e) })
 
 /-- `DilatedConnectionProtocol.send_record` on end `(x, l)`: `assert self._can_send_records` (set by
     `select`), then the frame is written — a transport that is closing / lost drops it -/
@@ -334,7 +360,7 @@ def dcpGotRecord (x : SideId) (l : Nat) (r : Rec) (s : Sys) : R :=
 mutual
 
 /-- an input of the Manager of side `x` (`fresh`: for rx_HINTS, whether the hints name the peer's current listener) -/
-def mgrInput (fuel : Nat) (x : SideId) (i : Manager.Input) (fresh : Bool) (s : Sys) : R :=
+def mgrInput (fuel : Nat) (x : SideId) (i : Manager.Input) (fresh : Att) (s : Sys) : R :=
   match fuel with
   | 0 => (s, some .staleConnector)
   | fuel + 1 =>
@@ -344,7 +370,7 @@ def mgrInput (fuel : Nat) (x : SideId) (i : Manager.Input) (fresh : Bool) (s : S
       let s := s.modSide x (fun sd => { sd with mgr := st' })
       seqAll (mgrOutput fuel x fresh) outs s
 
-def mgrOutput (fuel : Nat) (x : SideId) (fresh : Bool) (o : Manager.Output) (s : Sys) : R :=
+def mgrOutput (fuel : Nat) (x : SideId) (fresh : Att) (o : Manager.Output) (s : Sys) : R :=
   match fuel with
   | 0 => (s, some .staleConnector)
   | fuel + 1 =>
@@ -364,7 +390,13 @@ def mgrOutput (fuel : Nat) (x : SideId) (fresh : Bool) (o : Manager.Output) (s :
     let s := retireConnector x s
     let s := s.modSide x (fun sd => { sd with con := some Connector.init, lst := true })
     -- start(): _start_listener -> (listen() fires at once) listener_ready(direct_hints)
-    conInput fuel x none .listener_ready 0 true s
+    andThen (conInput fuel x none .listener_ready 0 true s) (fun s =>
+      -- `if self._transit_relays: self._publish_hints(self._transit_relays); self._use_hints(self._transit_relays)`
+      -- (plain method calls, not inputs of the Connector's machine)
+      if s.relay = some x then
+        let s := send x (.rhints true) s
+        (s.modSide x (fun sd => { sd with att := sd.att ++ [.relay] }), none)
+      else (s, none))
   | .send_reconnect => (send x .reconnect s, none)
   | .send_reconnecting => (send x .reconnecting s, none)
   | .use_hints => conInput fuel x none .got_hints 0 fresh s
@@ -378,7 +410,7 @@ def mgrOutput (fuel : Nat) (x : SideId) (fresh : Bool) (o : Manager.Output) (s :
   | .send_status_reconnecting | .send_status_stopped => (s, none)
 
 /-- an input of a Connector of side `x`: the current one (`owner = none`) or an old one frozen in `st` -/
-def conInput (fuel : Nat) (x : SideId) (owner : Option Connector.State) (i : Connector.Input) (l : Nat) (fresh : Bool) (s : Sys) : R :=
+def conInput (fuel : Nat) (x : SideId) (owner : Option Connector.State) (i : Connector.Input) (l : Nat) (fresh : Att) (s : Sys) : R :=
   match fuel with
   | 0 => (s, some .staleConnector)
   | fuel + 1 =>
@@ -398,7 +430,7 @@ def conInput (fuel : Nat) (x : SideId) (owner : Option Connector.State) (i : Con
         let s := s.modSide x (fun sd => { sd with con := some st' })
         seqAll (conOutput fuel x l fresh) outs s
 
-def conOutput (fuel : Nat) (x : SideId) (l : Nat) (fresh : Bool) (o : Connector.Output) (s : Sys) : R :=
+def conOutput (fuel : Nat) (x : SideId) (l : Nat) (fresh : Att) (o : Connector.Output) (s : Sys) : R :=
   match fuel with
   | 0 => (s, some .staleConnector)
   | fuel + 1 =>
@@ -463,7 +495,8 @@ def connectionLost (x : SideId) (s : Sys) : R :=
 def receivedMessage (x : SideId) (m : Msg) (s : Sys) : R :=
   match m with
   | .please => mgrInput FUEL x .rx_PLEASE false s
-  | .hints f => mgrInput FUEL x .rx_HINTS f s
+  | .hints f => mgrInput FUEL x .rx_HINTS (.direct f) s
+  | .rhints _ => mgrInput FUEL x .rx_HINTS .relay s
   | .reconnect => mgrInput FUEL x .rx_RECONNECT false s
   | .reconnecting => mgrInput FUEL x .rx_RECONNECTING false s
 
@@ -555,6 +588,14 @@ def healthy (k : Link) : Bool := bothOpen k && !k.sa && !k.sb
 
 def freshHints (ms : List Msg) : Nat := (ms.filter (· == .hints true)).length
 
+/-- can side `x` still get its half of a relay connection of the newest generation in place?  It waits at the
+    relay already, or the dial is scheduled, or the relay hint of the peer's current generation is on its way -/
+def relayLeg (s : Sys) (x : SideId) : Bool :=
+  let sd := s.side x
+  (match sd.rhalf with | some e => e.owner = none && e.status = .open_ | none => false) ||
+  sd.att.contains .relay ||
+  (s.chanFrom x.other).contains (.rhints true) || sd.pend.contains (.rhints true)
+
 /-- candidate opportunities of the newest generation other than link `l`: healthy links between the
     two current connectors, scheduled connections to a current listener and fresh hints on their way
     (hints count from the moment they are SENT: an implementation that discards hints it was sent in
@@ -565,8 +606,9 @@ def otherCandidates (s : Sys) (l : Nat) : Nat :=
     | i, none :: t => cnt (i + 1) t
     | i, some k :: t => (if i ≠ l ∧ healthy k ∧ k.a.owner = none ∧ k.b.owner = none then 1 else 0) + cnt (i + 1) t
   cnt 0 s.links
-    + (if s.ra then (s.a.att.filter id).length + freshHints s.ba + freshHints s.a.pend else 0)
-    + (if s.rb then (s.b.att.filter id).length + freshHints s.ab + freshHints s.b.pend else 0)
+    + (if s.ra then (s.a.att.filter (· == .direct true)).length + freshHints s.ba + freshHints s.a.pend else 0)
+    + (if s.rb then (s.b.att.filter (· == .direct true)).length + freshHints s.ab + freshHints s.b.pend else 0)
+    + (if relayLeg s .A && relayLeg s .B then 1 else 0)
 
 /-- may the network drop end `(x, l)` now?  Always, except for the LAST candidate of the newest
     generation (the property's proviso: "provided the network lets at least one connection attempt
@@ -647,11 +689,20 @@ def apply (s : Sys) : Event → Sys × Outcome
   | .connect x =>
     match (s.side x).att with
     | [] => (s, .skip)
-    | tgt :: rest =>
+    | .direct tgt :: rest =>
       let s := s.modSide x (fun sd => { sd with att := rest })
       if tgt && (s.side x.other).lst && s.reach x then
         ({ s with links := placeLink s.links { dialer := x } }, .ok)
       else (s, .ok)                                   -- ConnectionRefusedError, trapped
+    | .relay :: rest =>
+      -- the relay is reachable; it joins this connection with the peer's if one is waiting there, else this one waits
+      let s := s.modSide x (fun sd => { sd with att := rest })
+      (match (s.side x.other).rhalf with
+       | some e =>
+         let s := s.modSide x.other (fun p => { p with rhalf := none })
+         let k : Link := { dialer := x, relay := true }
+         ({ s with links := placeLink s.links ((k.setEnd x {}).setEnd x.other e) }, .ok)
+       | none => (s.modSide x (fun sd => { sd with rhalf := some {} }), .ok))
   | .turn1 x =>
     match (s.side x).eq with
     | [] => (s, .skip)
@@ -753,7 +804,8 @@ def enabledP (p : Abs) (s : Sys) (e : Event) : Bool :=
    | .connect x =>
      -- a connection that would succeed needs a free slot among the K
      (match (s.side x).att with
-      | tgt :: _ => !(tgt && (s.side x.other).lst && s.reach x) || firstFree s.links < p.K
+      | .direct tgt :: _ => !(tgt && (s.side x.other).lst && s.reach x) || firstFree s.links < p.K
+      | .relay :: _ => (s.side x.other).rhalf.isNone || firstFree s.links < p.K
       | [] => false)
    | .hs l | .kcmf l | .kcml l | .lose _ l => l < p.K
    | .write x => p.ext && (s.side x).nseq < p.W
@@ -781,6 +833,15 @@ def absK : Abs :=
 def absS : Abs :=
   { K := 1, W := 1, ext := true,
     inits := [{ cmp := .gt }, { cmp := .gt, rb := false }, { cmp := .gt, ra := false }] }
+
+/-- the transit relay: one side is configured with it (A leads; either side may be the configured one), direct
+    dialling works in both, one or NO direction; at most 2 links at a time; no records / timer / silent loss -/
+def absR : Abs :=
+  { K := 2, W := 0, ext := false,
+    inits := [{ cmp := .gt, relay := some .A, ra := false, rb := false },
+              { cmp := .gt, relay := some .B, ra := false, rb := false },
+              { cmp := .gt, relay := some .A, rb := false }, { cmp := .gt, relay := some .B, rb := false },
+              { cmp := .gt, relay := some .A, ra := false }, { cmp := .gt, relay := some .B, ra := false }] }
 
 def K : Nat := absK.K
 def enabledK : Sys → Event → Bool := enabledP absK
@@ -987,6 +1048,10 @@ def eqStr : EqCall → String
   | .accept l => "a" ++ toString l
   | .lostcb l => "l" ++ toString l
 
+def attStr : Att → String
+  | .direct f => b01 f
+  | .relay => "R"
+
 def showSide (c : Conc) (x : SideId) : String :=
   let sd := c.sys.side x
   let r := c.rx x
@@ -997,11 +1062,12 @@ def showSide (c : Conc) (x : SideId) : String :=
   let con := match sd.con with | none => "-" | some st => Connector.State.name st
   let conn := match sd.conn with | none => "-" | some l => toString l
   let tt := match sd.tt with | none => "-" | some st => TrafficTimer.State.name st
-  base ++ s!" mgr={Manager.State.name sd.mgr} role={roleStr sd.role} con={con} lst={b01 sd.lst} stale={b01 sd.stale} att=[{",".intercalate (sd.att.map b01)}] conn={conn} eq=[{",".intercalate (sd.eq.map eqStr)}] tt={tt} gen={gen} tm={b01 sd.timer} oq=[{",".intercalate (sd.oq.map toString)}] rxh={sd.rxh}"
+  base ++ s!" mgr={Manager.State.name sd.mgr} role={roleStr sd.role} con={con} lst={b01 sd.lst} stale={b01 sd.stale} att=[{",".intercalate (sd.att.map attStr)}] rh={match sd.rhalf with | none => "-" | some e => (match e.owner with | none => "cur" | some st => "old-" ++ Connector.State.name st)} conn={conn} eq=[{",".intercalate (sd.eq.map eqStr)}] tt={tt} gen={gen} tm={b01 sd.timer} oq=[{",".intercalate (sd.oq.map toString)}] rxh={sd.rxh}"
 
 def msgStr : Msg → String
   | .please => "please"
   | .hints f => "hints" ++ b01 f
+  | .rhints f => "rhints" ++ b01 f
   | .reconnect => "reconnect"
   | .reconnecting => "reconnecting"
 
@@ -1033,7 +1099,7 @@ def showLinks (s : Sys) : String :=
     | _, [] => []
     | i, none :: t => s!"{i}:free" :: go (i + 1) t
     | i, some k :: t =>
-      s!"{i}:dial={k.dialer.name} hs={b01 k.hs} kf={b01 k.kf} kl={b01 k.kl} sil={if k.sa || k.sb then (if k.sa then "A" else "") ++ (if k.sb then "B" else "") else "-"} qa=[{",".intercalate (k.qa.map recStr)}] qb=[{",".intercalate (k.qb.map recStr)}] A:{endStr k.a} B:{endStr k.b}" :: go (i + 1) t
+      s!"{i}:dial={if k.relay then "R" else k.dialer.name} hs={b01 k.hs} kf={b01 k.kf} kl={b01 k.kl} sil={if k.sa || k.sb then (if k.sa then "A" else "") ++ (if k.sb then "B" else "") else "-"} qa=[{",".intercalate (k.qa.map recStr)}] qb=[{",".intercalate (k.qb.map recStr)}] A:{endStr k.a} B:{endStr k.b}" :: go (i + 1) t
   " | ".intercalate (go 0 s.links)
 
 def showConc (c : Conc) : String :=
@@ -1084,6 +1150,10 @@ def stepLine (c : Conc) (line : String) : Conc × String :=
   | ["init", ha, hb, ra, rb] =>
     match strOfHex? ha, strOfHex? hb with
     | some a, some b => fin { sys := { cmp := cmpSides a b, ra := ra == "1", rb := rb == "1" } } "ok"
+    | _, _ => (c, "bad-op")
+  | ["init", ha, hb, ra, rb, rl] =>
+    match strOfHex? ha, strOfHex? hb with
+    | some a, some b => fin { sys := { cmp := cmpSides a b, ra := ra == "1", rb := rb == "1", relay := side? rl } } "ok"
     | _, _ => (c, "bad-op")
   | ["arrive", x, n] =>
     match side? x, n.toNat? with
